@@ -720,7 +720,14 @@ pub fn get_deposit(
     pool_deposit: &BigNum, // // protocol parameter
     key_deposit: &BigNum,  // protocol parameter
 ) -> Result<Coin, JsError> {
-    internal_get_deposit(&txbody.certs, &pool_deposit, &key_deposit)
+    let certificate_deposit = internal_get_deposit(&txbody.certs, &pool_deposit, &key_deposit)?;
+    let proposal_deposit = match &txbody.voting_proposals {
+        None => BigNum::zero(),
+        Some(proposals) => (0..proposals.len()).try_fold(BigNum::zero(), |acc, i| {
+            acc.checked_add(&proposals.get(i).deposit())
+        })?,
+    };
+    certificate_deposit.checked_add(&proposal_deposit)
 }
 
 #[derive(Debug, Clone, Eq, Ord, PartialEq, PartialOrd)]
